@@ -622,7 +622,7 @@ def _recover(node, et):
             got_t = e.text or ''
             if want_t != got_t:
                 return {'elem': el.name, 'want_text': want_t, 'got_text': got_t}
-            if sh is not None and not sh.children and sh.el is el:
+            if sh is not None and not sh.children and sh.el is el and not isinstance(sh.value, list):
                 # what the harness supplied must be what the element holds
                 sv = '' if sh.value is None else str(sh.value)
                 if sv != got_t:
